@@ -113,4 +113,10 @@ DRIVERS = {
         "level_text": "For every configuration all schedules with at most PB preemptions are executed on the real implementation (one process per schedule); each is checked for exactly-once delivery, per-thread order, flush-before-shutdown-returns, the 1 MiB unwritten bound at every step, drop accounting, per-thread silencing and absence of deadlock/livelock. The coverage statement is at synchronisation-point granularity.",
         "level_note": "Trusted: scheduler (harness/sched), harness sink. Assumes data-race freedom between synchronisation points, which a separate TSan build of the same bodies monitors; memory orderings weaker than seq-cst are not modelled (oomd uses none here).",
     },
+    "C19": {
+        "sources": COMMON_E2 + ["props/c19.cpp"], "level": "model_checking", "engine": "E2",
+        "technique": "stateless preemption-bounded enumeration of all thread schedules of the real Stats service (API callers, accept thread, handler threads, scheduled socket clients, destructor) under a cooperative scheduler with virtual-time socket/condvar timeouts; brute-force linearizability check and protocol monitor per schedule; separate ThreadSanitizer pass",
+        "level_text": "All schedules with at most PB preemptions of each counter program and of each client-session configuration are executed on the real implementation, one process per schedule, over real AF_UNIX sockets whose readiness is peeked non-blockingly by the scheduler; timeouts (2 s socket, 5 s shutdown wait) fire in virtual time at quiescence. Every call/return history must be linearizable, every session must get at most one well-formed reply, the server must stay responsive and ~Stats must return.",
+        "level_note": "Trusted: scheduler and its enabledness rules (poll-based readiness, timers at quiescence), harness clients. Scheduling-point granularity; data races are the TSan pass's job.",
+    },
 }
